@@ -135,6 +135,13 @@ Theorem C11_atomic_exact : forall c R c0 tns sched,
 Proof. exact atomic_exact_thm. Qed.
 Print Assumptions C11_atomic_exact.
 
+(* closed form of the specification: of the first L entries of a window, min(L, N) + (L - N) / M are kept *)
+Theorem C11_kept_count : forall N M (L : nat), 0 <= N -> 0 <= M ->
+  Z.of_nat (count_true (map (keeps N M) (zseq 1 L))) =
+  Z.min (Z.of_nat L) N + (if M =? 0 then 0 else Z.max 0 (Z.of_nat L - N) / M).
+Proof. exact kept_count_thm. Qed.
+Print Assumptions C11_kept_count.
+
 (* ---- the code before the fix (cells started with resetAt = 0), kept as documentation ---- *)
 Theorem C11_sequential_orig_refuted : ~ (forall c ops, wf_run c ops = true -> outcomes_orig c ops = spec_outcomes c ops).
 Proof. exact sequential_orig_refuted. Qed.
